@@ -1,11 +1,392 @@
+// sonicsa: repository-specific static analyser deciding structural clauses of the properties in
+// /verif/properties.jsonl on the current working tree of /repo. See /verif/DESIGN.md.
 package main
 
 import (
-	_ "golang.org/x/tools/go/callgraph/cha"
-	_ "golang.org/x/tools/go/callgraph/vta"
-	_ "golang.org/x/tools/go/packages"
-	_ "golang.org/x/tools/go/ssa"
-	_ "golang.org/x/tools/go/ssa/ssautil"
+	"encoding/json"
+	"flag"
+	"fmt"
+	"os"
+	"os/exec"
+	"path/filepath"
+	"sort"
+	"strconv"
+	"strings"
+	"sync"
+	"time"
 )
 
-func main() {}
+var registry = map[string]*propertySpec{}
+
+func register(s *propertySpec) { registry[s.ID] = s }
+
+func envOr(k, d string) string {
+	if v := os.Getenv(k); v != "" {
+		return v
+	}
+	return d
+}
+
+func main() {
+	if len(os.Args) < 2 {
+		fmt.Fprintln(os.Stderr, "usage: sonicsa check|all|explain|variant|list ...")
+		os.Exit(2)
+	}
+	switch os.Args[1] {
+	case "check":
+		os.Exit(cmdCheck(os.Args[2:]))
+	case "all":
+		os.Exit(cmdAll(os.Args[2:]))
+	case "explain":
+		os.Exit(cmdExplain(os.Args[2:]))
+	case "variant":
+		os.Exit(cmdVariant(os.Args[2:]))
+	case "list":
+		ids := []string{}
+		for id := range registry {
+			ids = append(ids, id)
+		}
+		sort.Strings(ids)
+		for _, id := range ids {
+			fmt.Println(id, registry[id].Title)
+		}
+	default:
+		fmt.Fprintln(os.Stderr, "unknown command", os.Args[1])
+		os.Exit(2)
+	}
+}
+
+type commonFlags struct {
+	prop, tier, repo, verif string
+}
+
+func parseCommon(name string, args []string) (*commonFlags, *flag.FlagSet) {
+	fs := flag.NewFlagSet(name, flag.ExitOnError)
+	cf := &commonFlags{}
+	fs.StringVar(&cf.prop, "p", "", "property id")
+	fs.StringVar(&cf.tier, "tier", envOr("VERIF_TIER", "quick"), "quick|thorough")
+	fs.StringVar(&cf.repo, "repo", envOr("SONIC_REPO", "/repo"), "repository root")
+	fs.StringVar(&cf.verif, "verif", envOr("VERIF_DIR", "/verif"), "verification directory")
+	return cf, fs
+}
+
+func seed() int64 {
+	s, _ := strconv.ParseInt(os.Getenv("VERIF_SEED"), 10, 64)
+	return s
+}
+
+// checkOne evaluates one property (already loaded programs, one per configuration) and reports.
+func checkOne(cf *commonFlags, spec *propertySpec, progs []*Prog, configs []string, findings []Finding, start time.Time) int {
+	var results []runResult
+	exit := 0
+	for i, p := range progs {
+		r := runProperty(p, spec, findings)
+		results = append(results, r)
+		if r.InfraErr != "" {
+			fmt.Printf("INFRASTRUCTURE-FAILURE property=%s config=%s: %s\n", spec.ID, configs[i], r.InfraErr)
+			exit = 2
+		}
+	}
+	printed := map[string]bool{}
+	for i, r := range results {
+		for _, o := range r.Known {
+			if !printed["k"+o.Key] {
+				printed["k"+o.Key] = true
+				fmt.Printf("KNOWN-FINDING: property=%s %s (%s at %s)\n", spec.ID, knownWhat(findings, spec.ID, o.Key), o.Key, o.Pos)
+			}
+		}
+		for _, o := range r.Violations {
+			if printed["v"+o.Key] {
+				continue
+			}
+			printed["v"+o.Key] = true
+			path := filepath.Join(cf.verif, "out", "violations", spec.ID, keyHash(o.Key)+".json")
+			_ = writeJSON(path, map[string]any{"property": spec.ID, "config": configs[i], "obligation": o})
+			fmt.Printf("%s: %s [%s] %s\n  rule %s: %s\n", o.Pos, strings.ToUpper(o.Status), o.Key, o.Detail, o.Rule, ruleText(r.Ctx, o.Rule))
+			fmt.Printf("VIOLATION property=%s replay=%s\n", spec.ID, path)
+			exit = 1 // a violated obligation takes precedence over anything the checker could not decide
+		}
+	}
+	var self *selftestSummary
+	if cf.tier == "thorough" && exit == 0 {
+		self = runSelftest(cf, spec)
+		if len(self.Survived) > 0 {
+			fmt.Printf("INFRASTRUCTURE-FAILURE property=%s: self-validation variants not detected: %v\n", spec.ID, self.Survived)
+			exit = 2
+		}
+	}
+	if err := writeEvidence(cf.verif, spec, cf.tier, seed(), configs, results, time.Since(start), self); err != nil {
+		fmt.Println("cannot write evidence:", err)
+		if exit == 0 {
+			exit = 2
+		}
+	}
+	n, d := 0, 0
+	for _, r := range results {
+		if r.Ctx != nil {
+			for _, o := range r.Ctx.Obls {
+				n++
+				if o.Status == stDischarged {
+					d++
+				}
+			}
+		}
+	}
+	fmt.Printf("property=%s tier=%s configs=%v obligations=%d discharged=%d exit=%d wall=%.1fs\n", spec.ID, cf.tier, configs, n, d, exit, time.Since(start).Seconds())
+	return exit
+}
+
+func knownWhat(fs []Finding, prop, key string) string {
+	for _, f := range fs {
+		if f.Status == "known" && f.Property == prop && f.Key == key {
+			return f.What
+		}
+	}
+	return ""
+}
+
+func ruleText(c *Ctx, id string) string {
+	if c != nil {
+		for _, r := range c.Rules {
+			if r.ID == id {
+				return r.Text
+			}
+		}
+	}
+	return ""
+}
+
+func loadConfigs(cf *commonFlags) ([]*Prog, []string, int) {
+	archs := []string{"amd64"}
+	if cf.tier == "thorough" {
+		archs = append(archs, "arm") // 32-bit int; linux/386 does not type-check (syscall.SYS_SETSOCKOPT is undefined there)
+	}
+	var progs []*Prog
+	var configs []string
+	for _, a := range archs {
+		p, err := Load(cf.repo, a, nil)
+		if err != nil {
+			fmt.Printf("INFRASTRUCTURE-FAILURE cannot load linux/%s: %v\n", a, err)
+			return nil, nil, 2
+		}
+		progs = append(progs, p)
+		configs = append(configs, "linux/"+a)
+	}
+	return progs, configs, 0
+}
+
+func cmdCheck(args []string) int {
+	cf, fs := parseCommon("check", args)
+	_ = fs.Parse(args)
+	spec := registry[cf.prop]
+	if spec == nil {
+		fmt.Println("unknown property", cf.prop)
+		return 2
+	}
+	start := time.Now()
+	progs, configs, rc := loadConfigs(cf)
+	if rc != 0 {
+		return rc
+	}
+	findings := loadFindings(filepath.Join(cf.verif, "known_findings.jsonl"))
+	return checkOne(cf, spec, progs, configs, findings, start)
+}
+
+func cmdAll(args []string) int {
+	cf, fs := parseCommon("all", args)
+	_ = fs.Parse(args)
+	start := time.Now()
+	progs, configs, rc := loadConfigs(cf)
+	if rc != 0 {
+		return rc
+	}
+	findings := loadFindings(filepath.Join(cf.verif, "known_findings.jsonl"))
+	ids := []string{}
+	for id := range registry {
+		ids = append(ids, id)
+	}
+	sort.Strings(ids)
+	worst := 0
+	for _, id := range ids {
+		rc := checkOne(cf, registry[id], progs, configs, findings, start)
+		if rc > worst {
+			worst = rc
+		}
+	}
+	return worst
+}
+
+// cmdExplain re-derives the obligation recorded in a violation file on the current tree.
+func cmdExplain(args []string) int {
+	cf, fs := parseCommon("explain", args)
+	_ = fs.Parse(args)
+	if fs.NArg() != 1 {
+		fmt.Println("usage: sonicsa explain <violation.json>")
+		return 2
+	}
+	b, err := os.ReadFile(fs.Arg(0))
+	if err != nil {
+		fmt.Println(err)
+		return 2
+	}
+	var v struct {
+		Property   string     `json:"property"`
+		Config     string     `json:"config"`
+		Obligation Obligation `json:"obligation"`
+	}
+	if err := json.Unmarshal(b, &v); err != nil {
+		fmt.Println(err)
+		return 2
+	}
+	spec := registry[v.Property]
+	if spec == nil {
+		fmt.Println("unknown property", v.Property)
+		return 2
+	}
+	arch := strings.TrimPrefix(v.Config, "linux/")
+	if arch == "" {
+		arch = "amd64"
+	}
+	p, err := Load(cf.repo, arch, nil)
+	if err != nil {
+		fmt.Println("INFRASTRUCTURE-FAILURE", err)
+		return 2
+	}
+	r := runProperty(p, spec, nil)
+	if r.InfraErr != "" {
+		fmt.Println("INFRASTRUCTURE-FAILURE", r.InfraErr)
+		return 2
+	}
+	for _, o := range r.Ctx.Obls {
+		if o.Key == v.Obligation.Key {
+			fmt.Printf("%s: %s [%s] %s\n  rule %s: %s\n", o.Pos, strings.ToUpper(o.Status), o.Key, o.Detail, o.Rule, ruleText(r.Ctx, o.Rule))
+			if o.Status != stDischarged {
+				fmt.Printf("VIOLATION property=%s replay=%s\n", v.Property, fs.Arg(0))
+				return 1
+			}
+			return 0
+		}
+	}
+	fmt.Printf("obligation %s is no longer present on the current tree\n", v.Obligation.Key)
+	return 0
+}
+
+// ---------------------------------------------------------------------------------------------------------------------
+// Self-validation variants (thorough tier): text edits applied through an overlay, analysed in a subprocess.
+// ---------------------------------------------------------------------------------------------------------------------
+
+type mutant struct {
+	Name   string
+	File   string // relative to the repository root
+	Old    string
+	New    string
+	Expect string // substring of the construct key (or rule id) that must be reported
+}
+
+var mutants = map[string][]mutant{}
+
+func addMutants(prop string, ms ...mutant) { mutants[prop] = append(mutants[prop], ms...) }
+
+type variantResult struct {
+	Infra string   `json:"infra,omitempty"`
+	Keys  []string `json:"keys"`
+}
+
+// cmdVariant: sonicsa variant -p C01 -file rel/path -content /path/to/replacement ; prints variantResult JSON.
+func cmdVariant(args []string) int {
+	cf, fs := parseCommon("variant", args)
+	file := fs.String("file", "", "file (relative to repo) replaced in the overlay")
+	content := fs.String("content", "", "path of the replacement contents")
+	_ = fs.Parse(args)
+	spec := registry[cf.prop]
+	out := variantResult{}
+	defer func() {
+		b, _ := json.Marshal(out)
+		fmt.Println(string(b))
+	}()
+	if spec == nil {
+		out.Infra = "unknown property"
+		return 2
+	}
+	data, err := os.ReadFile(*content)
+	if err != nil {
+		out.Infra = err.Error()
+		return 2
+	}
+	p, err := Load(cf.repo, "amd64", map[string][]byte{filepath.Join(cf.repo, *file): data})
+	if err != nil {
+		out.Infra = err.Error()
+		return 2
+	}
+	r := runProperty(p, spec, nil)
+	if r.InfraErr != "" {
+		out.Infra = r.InfraErr
+	}
+	for _, o := range r.Violations {
+		out.Keys = append(out.Keys, o.Key)
+	}
+	return 0
+}
+
+func runSelftest(cf *commonFlags, spec *propertySpec) *selftestSummary {
+	sum := &selftestSummary{}
+	ms := mutants[spec.ID]
+	if len(ms) == 0 {
+		return sum
+	}
+	self, _ := os.Executable()
+	tmp, err := os.MkdirTemp("", "sonicsa-variants-")
+	if err != nil {
+		sum.Survived = append(sum.Survived, "cannot create scratch dir: "+err.Error())
+		return sum
+	}
+	defer os.RemoveAll(tmp)
+	var mu sync.Mutex
+	var wg sync.WaitGroup
+	sem := make(chan struct{}, 6)
+	for i, m := range ms {
+		src, err := os.ReadFile(filepath.Join(cf.repo, m.File))
+		if err != nil || strings.Count(string(src), m.Old) != 1 {
+			sum.Skipped++
+			sum.Details = append(sum.Details, fmt.Sprintf("%s: skipped (text to edit not found exactly once in %s)", m.Name, m.File))
+			continue
+		}
+		sum.Mutants++
+		path := filepath.Join(tmp, fmt.Sprintf("v%d.go", i))
+		_ = os.WriteFile(path, []byte(strings.Replace(string(src), m.Old, m.New, 1)), 0o644)
+		wg.Add(1)
+		go func(m mutant, path string) {
+			defer wg.Done()
+			sem <- struct{}{}
+			defer func() { <-sem }()
+			cmd := exec.Command(self, "variant", "-p", spec.ID, "-repo", cf.repo, "-verif", cf.verif, "-file", m.File, "-content", path)
+			outb, _ := cmd.Output()
+			var vr variantResult
+			lines := strings.Split(strings.TrimSpace(string(outb)), "\n")
+			_ = json.Unmarshal([]byte(lines[len(lines)-1]), &vr)
+			mu.Lock()
+			defer mu.Unlock()
+			hit := false
+			for _, k := range vr.Keys {
+				if strings.Contains(k, m.Expect) {
+					hit = true
+				}
+			}
+			switch {
+			case hit:
+				sum.Killed++
+				sum.Details = append(sum.Details, fmt.Sprintf("%s: detected (%s)", m.Name, m.Expect))
+			case vr.Infra != "" && strings.Contains(vr.Infra, "type-check"):
+				sum.Mutants--
+				sum.Skipped++
+				sum.Details = append(sum.Details, fmt.Sprintf("%s: skipped (variant does not compile)", m.Name))
+			default:
+				sum.Survived = append(sum.Survived, fmt.Sprintf("%s (expected a report containing %q, got %v %s)", m.Name, m.Expect, vr.Keys, vr.Infra))
+			}
+		}(m, path)
+	}
+	wg.Wait()
+	sort.Strings(sum.Details)
+	sort.Strings(sum.Survived)
+	return sum
+}
